@@ -278,7 +278,7 @@ pub fn generate(rng: &mut Rng, thorough: bool) -> Vec<Value> {
         if end == "exit" && rng.chance(1, 2) {
             items.push(json!({"k": "req", "method": "shutdown", "params": Value::Null, "tag": "shutdown"}));
         }
-        out.push(json!({"model": rng.chance(1, 2), "items": items, "end": end}));
+        out.push(json!({"model": rng.chance(1, 2), "rendezvous": i % 3 == 1, "items": items, "end": end}));
     }
     out
 }
@@ -309,6 +309,7 @@ pub fn label(v: &Value) -> String {
         }
     }
     if v["remote"].as_bool().unwrap_or(false) { f.push("remote-action"); }
+    if v["rendezvous"].as_bool().unwrap_or(false) { f.push("rendezvous-transport"); }
     f.sort();
     format!("end={} {}", v["end"].as_str().unwrap_or("?"), f.join("+"))
 }
@@ -669,7 +670,8 @@ pub fn execute(v: &Value) -> String {
         std::env::set_var("no_proxy", "127.0.0.1");
     }
     let configuration = if remote { remote_configuration() } else { drv::configuration(v["model"].as_bool().unwrap_or(false)) };
-    let mut srv = Srv::start(&docs, configuration, false);
+    // every third generated session talks to the server over a transport shaped like stdio
+    let mut srv = Srv::start_on(&docs, configuration, false, v["rendezvous"].as_bool().unwrap_or(false));
     let mut shadow = Shadow::new(&docs);
     shadow.custom = remote;
     // every request must be answered, every notification applied within WORKER_LIMIT; once that has
